@@ -125,7 +125,7 @@ impl Report {
         }
         if r.timed_out {
             self.caps_hit
-                .push(format!("{}: time cap hit after {:.1}s, {} states checked", r.space, r.wall_s, r.states_checked));
+                .push(format!("{}: time or memory cap hit after {:.1}s, {} states checked", r.space, r.wall_s, r.states_checked));
         }
         self.parts.push(json!({
             "space": r.space, "unique_states": r.unique_states, "generated_states": r.generated_states,
